@@ -23,3 +23,6 @@ func VerifC02UniqueItems(ch *ChUnique) (items []uint32, skipDegree uint32) {
 	sort.Slice(items, func(i, j int) bool { return items[i] < items[j] })
 	return items, ch.skipDegree
 }
+
+// VerifC02SampleFactorLog2 returns MultiItem.sampleFactorLog2 (number of resample rounds the row went through).
+func VerifC02SampleFactorLog2(s *MultiItem) int { return s.sampleFactorLog2 }
